@@ -129,8 +129,8 @@ def failing_and_colliding_programs():
         out.append({"name": "fail:%s:function" % name, "entry": "main.ms",
                     "files": {"main.ms": "f = fn(k: int) -> int {\n  print \"in f\"\n  %s\n  return k\n}\ng = fn(k: int) -> int {\n  return f(k) + 1\n}\nprint \"before\"\nprint g(1)\nprint \"after\"\n" % stmt}})
     out.append({"name": "collide:same-class-name-in-two-scopes", "entry": "main.ms", "files": {"main.ms":
-        "mk1 = fn() -> int {\n  class Box {\n    constructor(self) {}\n    fn size(self) -> int { return 1 }\n  }\n  return Box().size()\n}\n"
-        "mk2 = fn() -> int {\n  class Box {\n    constructor(self) {}\n    fn size(self) -> int { return 2 }\n  }\n  return Box().size()\n}\n"
+        "mk1 = fn() -> int {\n  class Box {\n    constructor(self) {}\n    fn size(self) -> int { return 1 }\n  }\n  b = Box()\n  return b.size()\n}\n"
+        "mk2 = fn() -> int {\n  class Box {\n    constructor(self) {}\n    fn size(self) -> int { return 2 }\n  }\n  b = Box()\n  return b.size()\n}\n"
         "print mk1()\nprint mk2()\n"}})
     out.append({"name": "self:method-constructs-its-own-class", "entry": "main.ms", "files": {"main.ms":
         "class Counter {\n  n: int\n  constructor(self, n: int) {\n    self.n = n\n  }\n  fn next(self) -> Self {\n    return Self(self.n + 1)\n  }\n}\n"
@@ -139,6 +139,25 @@ def failing_and_colliding_programs():
         "class P {\n  v: int\n  constructor(self, v: int) {\n    self.v = v\n  }\n  fn twice(self) -> Self {\n    return Self(self.v * 2)\n  }\n}\nprint ((P(3)).twice()).v\n"}})
     out.append({"name": "self:method-constructs-its-own-class-c", "entry": "main.ms", "files": {"main.ms":
         "class Q {\n  v: int\n  constructor(self, v: int) {\n    self.v = v\n  }\n  fn up(self) -> Self {\n    return Self(self.v + 5)\n  }\n}\nq = Q(1)\nprint (q.up()).v\n"}})
+    for metric in ("true", "false"):
+        out.append({"name": "collide:same-class-name-in-if-and-else-branch (%s)" % metric, "entry": "main.ms", "files": {"main.ms":
+            "metric = %s\nif metric {\n  class Fmt {\n    fn unit(self) -> str {\n      return \"km\"\n    }\n  }\n  f = Fmt()\n  print \"100 \" + f.unit()\n} else {\n"
+            "  class Fmt {\n    fn unit(self) -> str {\n      return \"mi\"\n    }\n  }\n  f = Fmt()\n  print \"62 \" + f.unit()\n}\n" % metric}})
+    out.append({"name": "collide:same-class-name-in-two-blocks-both-run", "entry": "main.ms", "files": {"main.ms":
+        "if true {\n  class Tag {\n    fn s(self) -> str {\n      return \"first\"\n    }\n  }\n  t = Tag()\n  print t.s()\n}\nfrom 0 to 1, i {\n  class Tag {\n    fn s(self) -> str {\n      return \"second\"\n    }\n  }\n  t = Tag()\n  print t.s() + i\n}\n"}})
+    out.append({"name": "collide:same-function-name-in-if-and-else-branch", "entry": "main.ms", "files": {"main.ms":
+        "k = 2\nif k == 1 {\n  h = fn() -> int {\n    return 1\n  }\n  print h()\n} else {\n  h = fn() -> int {\n    return 2\n  }\n  print h()\n}\n"}})
+    # the life of a name: a loop counter is gone after its loop; the name declared again later is a NEW variable each time
+    out.append({"name": "scope:counter-name-declared-again-in-a-later-loop-body-and-captured", "entry": "main.ms", "files": {"main.ms":
+        "sum = 0\nfrom 0 to 3, k {\n  sum += k\n}\nprint sum\nfns: [fn() -> int...] = []\nj = 0\nwhile j < 3 {\n  k = j * 10\n  fns.push(fn() -> int {\n    return k\n  })\n  j += 1\n}\n"
+        "a = fns[0]\nb = fns[1]\nc = fns[2]\nprint a()\nprint b()\nprint c()\n"}})
+    out.append({"name": "scope:counter-name-declared-again-in-a-function", "entry": "main.ms", "files": {"main.ms":
+        "run = fn() -> [fn() -> int...] {\n  t = 0\n  from 0 through 2, k {\n    t = t + k\n  }\n  print t\n  fs: [fn() -> int...] = []\n  from 0 to 3, j {\n    k = j + 100\n    fs.push(fn() -> int {\n      return k\n    })\n  }\n  return fs\n}\n"
+        "fs = run()\na = fs[0]\nc = fs[2]\nprint a()\nprint c()\n"}})
+    out.append({"name": "scope:counter-name-reused-by-later-loops-and-variables", "entry": "main.ms", "files": {"main.ms":
+        "from 0 to 2, k {\n  print k\n}\nfrom 5 to 7, k {\n  print k\n}\nk = \"text\"\nprint k\nw = 0\nwhile w < 2 {\n  q = w * 2\n  w = w + 1\n}\nq = true\nprint q\n"}})
+    out.append({"name": "scope:block-local-captured-per-iteration", "entry": "main.ms", "files": {"main.ms":
+        "fs: [fn() -> int...] = []\nfrom 0 to 3, i {\n  if i != 1 {\n    v = i * 7\n    fs.push(fn() -> int {\n      return v\n    })\n  }\n}\na = fs[0]\nb = fs[1]\nprint a()\nprint b()\n"}})
     out.append({"name": "collide:same-function-name-in-two-scopes", "entry": "main.ms", "files": {"main.ms":
         "a = fn() -> int {\n  h = fn() -> int { return 1 }\n  return h()\n}\nb = fn() -> int {\n  h = fn() -> int { return 2 }\n  return h()\n}\nprint a()\nprint b()\n"}})
     return out
